@@ -1185,8 +1185,7 @@ func (w *worker) runCombine(ctx context.Context, task *Task, taskStats *stats.Ma
 			}
 
 			flushed := pcomb.Compact()
-			combErr := combiner.Combine(ctx, flushed)
-			combiners[p] <- combiner
+			combErr := combineShared(ctx, combiners[p], combiner, flushed)
 			if combErr != nil {
 				return combErr
 			}
@@ -1200,13 +1199,22 @@ func (w *worker) runCombine(ctx context.Context, task *Task, taskStats *stats.Ma
 	// Flush the remainder.
 	for p, comb := range partitionCombiner {
 		combiner := <-combiners[p]
-		err := combiner.Combine(ctx, comb.Compact())
-		combiners[p] <- combiner
+		err := combineShared(ctx, combiners[p], combiner, comb.Compact())
 		if err != nil {
 			return err
 		}
 	}
 	return nil
+}
+
+// combineShared combines f into the shared combiner c and hands c back
+// to ch, from which it was taken. The combiner is handed back even if
+// the (user-provided) combine function panics; otherwise everyone
+// waiting for the buffer, including the commit of the combine buffer,
+// would block forever.
+func combineShared(ctx context.Context, ch chan *combiner, c *combiner, f frame.Frame) error {
+	defer func() { ch <- c }()
+	return c.Combine(ctx, f)
 }
 
 func (w *worker) Stats(ctx context.Context, _ struct{}, values *stats.Values) error {
